@@ -1,5 +1,6 @@
 import RgVerif.Driver.SearcherCommon
 import RgVerif.Spec.MultiLine
+import RgVerif.Driver.C02
 namespace RgVerif.Driver.C03
 open RgVerif RgVerif.Driver.SearcherCommon
 
@@ -25,6 +26,9 @@ def handle (cmd : String) (args : List Sx) : String :=
   | "c03.lines" => handleLines args
   | "c03.path" => handlePath args
   | "c03.mlspec" => handleMlSpec args
+  -- `c03.rbl cfg matcher inp (script …) cap|- heap|- sink`: `Searcher::search_reader` in the model
+  -- (`Model/ReadByLine.searchReader`, the subject of `Props/C03Reader.lean`); same request as `c02.rbl`
+  | "c03.rbl" => RgVerif.Driver.C02.handle "c02.rbl" args
   | _ => "bad-op"
 
 end RgVerif.Driver.C03
